@@ -187,6 +187,74 @@ def closest_metric(ctx, rep, clause):
        else f.loc(), clause)
 
 
+def window_bounds(ctx, rep, clause):
+    """the tolerance window of a theoretical value is the closed interval [mz - off, mz + off]: an observed peak is
+    skipped only when strictly below the lower bound and taken while less than or equal to the upper bound; two
+    closed windows are disjoint only when one lower bound is strictly greater than the other upper bound.  Every
+    comparison in get_matched_indices that involves a window bound is classified by the roles of its operands
+    (lower bound / upper bound / observed peak), roles being propagated through plain copies"""
+    program = ctx.program
+    f = program.func(f'{SC}:get_matched_indices')
+    c = Canon(f.node)
+    role = {}
+    offset_names = set()
+    changed = True
+    rounds = 0
+    while changed and rounds < 6:
+        changed = False
+        rounds += 1
+        for name in c.order:
+            if not c.is_local(name):
+                continue
+            for kind, payload in c.bindings[name]:
+                if kind != 'assign':
+                    continue
+                v = payload
+                r = None
+                if isinstance(v, ast.BinOp) and isinstance(v.op, (ast.Sub, ast.Add)) and isinstance(v.right, ast.Name) \
+                        and ('tolerance' in norm_stmt(c.resolve(v.right))):
+                    r = 'lower' if isinstance(v.op, ast.Sub) else 'upper'
+                elif isinstance(v, ast.Name) and v.id in role:
+                    r = role[v.id]
+                if r is not None and role.get(name) != r:
+                    role[name] = r
+                    changed = True
+    if set(role.values()) != {'lower', 'upper'}:
+        raise AnalysisError('get_matched_indices: lower / upper window bounds (mz -/+ tolerance offset) not recognised')
+
+    def kind_of(e):
+        if isinstance(e, ast.Name) and e.id in role:
+            return role[e.id]
+        if isinstance(e, ast.Subscript) and norm_stmt(e.value) in ('mz_spectrum2', 'mz_spectrum1'):
+            return 'peak'
+        return None
+    flip = {ast.Lt: ast.Gt, ast.Gt: ast.Lt, ast.LtE: ast.GtE, ast.GtE: ast.LtE}
+    n = 0
+    for x in walk_own(f.node):
+        if not (isinstance(x, ast.Compare) and len(x.ops) == 1 and type(x.ops[0]) in flip):
+            continue
+        a, b, op = kind_of(x.left), kind_of(x.comparators[0]), type(x.ops[0])
+        if a is None or b is None:
+            continue
+        if (a, b) in (('lower', 'peak'), ('upper', 'peak'), ('upper', 'lower')):
+            a, b, op = b, a, flip[op]
+        n += 1
+        if (a, b) == ('peak', 'lower'):
+            ok, want = op in (ast.Lt, ast.GtE), 'peak < lower (skip) / peak >= lower (inside)'
+        elif (a, b) == ('peak', 'upper'):
+            ok, want = op in (ast.LtE, ast.Gt), 'peak <= upper (inside) / peak > upper (past)'
+        elif (a, b) == ('lower', 'upper'):
+            ok, want = op in (ast.Gt, ast.LtE), 'lower > other upper (disjoint) / lower <= other upper (touching or overlapping)'
+        else:
+            n -= 1
+            continue
+        sym = {ast.Lt: '<', ast.Gt: '>', ast.LtE: '<=', ast.GtE: '>='}[op]
+        ob(rep, 'KIND', f.fq, f'comparison #{n} `{a} {sym} {b}` keeps the window bounds inclusive', ok, want,
+           f'`{norm_stmt(x)}` puts equality on the wrong side of a closed window ({want}): a peak or a neighbouring '
+           f'window that sits exactly on the bound is treated as outside', f.loc(x), clause)
+    rep.floor('KIND', 'comparisons against window bounds in get_matched_indices', n, 2)
+
+
 def check(ctx, rep):
     rep.explanation = EXPLANATION
     an, program = ctx.analyzer, ctx.program
@@ -194,6 +262,7 @@ def check(ctx, rep):
     mode_exhaustive(ctx, rep, 'C17b')
     match_indexing(ctx, rep, 'C17c')
     closest_metric(ctx, rep, 'C17b')
+    window_bounds(ctx, rep, 'C17a')
     callers = {f.fq for f in program.all_functions() if f.module.name == SC}
     n = add_fwd(rep, forwarding(an, program, ['tolerance_value', 'tolerance_type', 'mode', 'intensity_spectra'],
                                 callers=callers), 'C17c')
